@@ -699,6 +699,15 @@ func HarnessC30Precond() {
 	zzvCheck(q, size, zzvServe(q, size))
 }
 
+// zzvMultiForms: lists of two draw from the first FORMS forms, longer lists from the first FORMS3.
+func zzvMultiForms(ns int) int {
+	f := verifrt.Param("FORMS", zzvNForms)
+	if ns > 2 {
+		return verifrt.Param("FORMS3", f)
+	}
+	return f
+}
+
 // zzvMultiIfRange: If-Range absent / matching / other for lists of two; absent / other for longer lists
 // (a matching If-Range behaves like an absent one, see HarnessC30Single and the lists of two).
 func zzvMultiIfRange(ns int) int {
@@ -715,7 +724,7 @@ func HarnessC30Multi() {
 	q := &zzvRequest{hasRange: true}
 	q.head = verifrt.NondetRange("head", 0, 1) == 1
 	ns := verifrt.NondetRange("nspec", 2, verifrt.Param("NS", 2))
-	q.specs = zzvDrawSpecs(ns, verifrt.Param("FORMS", zzvNForms))
+	q.specs = zzvDrawSpecs(ns, zzvMultiForms(ns))
 	q.ifRange = zzvMultiIfRange(ns)
 	size := zzvSize()
 	zzvCheck(q, size, zzvServe(q, size))
@@ -727,7 +736,7 @@ func HarnessC30MultiRaw() {
 	q := &zzvRequest{hasRange: true, raw: true}
 	q.head = verifrt.NondetRange("head", 0, 1) == 1
 	ns := verifrt.NondetRange("nspec", 2, verifrt.Param("NS", 2))
-	q.specs = zzvDrawSpecs(ns, verifrt.Param("FORMS", zzvNForms))
+	q.specs = zzvDrawSpecs(ns, zzvMultiForms(ns))
 	q.ifRange = zzvMultiIfRange(ns)
 	size := zzvSize()
 	zzvCheck(q, size, zzvServe(q, size))
